@@ -14,16 +14,3 @@ impl<K: KeyView + Eq + std::hash::Hash, V> FromIterator<(K, V)> for HashMap<K, V
 pub open spec fn strs_ref_v(s: Seq<&str>) -> Seq<Seq<char>> { s.map_values(|x: &str| x@) }
 pub assume_specification<'a, T: Copy>[ Option::<&'a T>::copied ](o: Option<&'a T>) -> (r: Option<T>)
     ensures r == (match o { Some(x) => Some(*x), None => None::<T> });
-
-pub use vstd::string::StringSliceAdditionalSpecFns;
-/// uninterpreted string facts used by Backend::find_parameter_ranges (ASSUMED contract of `str::find`, see
-/// vp_find_in_line): byte offset of the first occurrence of needle in hay; UTF-8 length of a character sequence
-pub uninterp spec fn str_find(hay: Seq<char>, needle: Seq<char>) -> Option<usize>;
-pub uninterp spec fn utf8_len(s: Seq<char>) -> nat;
-pub mod utf8_ax {
-    use super::*;
-    /// A3: the UTF-8 encoding (vstd: `spec_bytes`) of a string slice is a function of its characters; so is its length
-    pub broadcast axiom fn axiom_utf8_len(s: &str)
-        ensures #[trigger] s.spec_bytes().len() == utf8_len(s@);
-}
-pub use utf8_ax::*;
